@@ -48,7 +48,7 @@ type RColl struct {
 	// ResumeTs, when set, is the time of the seek position (a checkpoint taken before a restart: everything up to it was
 	// acknowledged downstream, the last closing tick on the collection's downstream channels was at least this)
 	ResumeTs uint64 `json:"resume_ts,omitempty"`
-	Task     string   `json:"task"`
+	Task     string `json:"task"`
 }
 
 type REntry struct {
